@@ -570,7 +570,7 @@ static WATCH: std::sync::OnceLock<WatchMap> = std::sync::OnceLock::new();
 static WATCHDOG_STARTED: AtomicBool = AtomicBool::new(false);
 
 pub fn hang_limit_secs() -> u64 {
-    std::env::var("VERIF_HANG_SECS").ok().and_then(|s| s.parse().ok()).unwrap_or(60)
+    std::env::var("VERIF_HANG_SECS").ok().and_then(|s| s.parse().ok()).unwrap_or(120)
 }
 
 /// `abort_on_hang`: fuzz targets abort (so libFuzzer stops); the check binary exits with code 4,
